@@ -187,7 +187,9 @@ func (w *world) s2Body(src string, results *[]string, idx int) func() {
 	}
 }
 
-const s4Setup = "zz_c20_g0 := 10\nzz_c20_handler := {|req| [zz_c20_g0, req, Int.name, zz_c20_g0 + req]}\nzz_c20_handler"
+const s4Setup = "zz_c20_g0 := 10\nzz_c20_handler := {|req| [zz_c20_g0, req, Int.name, zz_c20_g0 + req]}\n" +
+	"zz_c20_defaults := {status: 200, body: \"x\"}\nzz_c20_list := [1, 2, 3]\nzz_c20_render := {|status: 0, body: \"\", debug: false, trace: false| [status, body, debug, trace]}\n" +
+	"zz_c20_it := <{|i| yield i if i < 3; recur(i + 1)}>\nzz_c20_handler"
 
 // envBody evaluates src in the given scope (shared or enclosed).
 func (w *world) envBody(src string, env *object.Env, results *[]string, idx int) func() {
@@ -217,6 +219,15 @@ func genS4(thorough bool, emit func(tcase)) {
 	}
 	mains := []string{"zz_c20_g1 := zz_c20_g0 + 1; zz_c20_g2 := 2; zz_c20_g1", "zz_c20_other := {|| 1}; zz_c20_other()"}
 	handlers := []string{"zz_c20_handler(1)", "[1, 2]@{|r| zz_c20_handler(r)}"}
+	// handlers that only READ values of the shared scope while building their own: keyword objects and arrays expanded
+	// into calls and literals, an iterator literal instantiated, a function called by both
+	readers := []string{"zz_c20_render(**zz_c20_defaults, **{debug: true})", "zz_c20_render(**zz_c20_defaults, **{trace: true})", "[*zz_c20_list, 4].len + {**zz_c20_defaults, extra: 1}.keys.len",
+		"[*zz_c20_list, 5].len + %{**zz_c20_defaults, 'k: 1}.len", "zz_c20_it.new(0).A", "zz_c20_it.new(1).A"}
+	for i := range readers {
+		for j := i; j < len(readers); j++ {
+			emit(tcase{Scenario: "S4", Threads: [][]string{{mains[0]}, {readers[i]}, {readers[j]}}, Bound: 1})
+		}
+	}
 	for _, m := range mains {
 		for _, h := range handlers {
 			emit(tcase{Scenario: "S4", Threads: [][]string{{m}, {h}}, Bound: bound})
@@ -295,7 +306,11 @@ func (w *world) execute(t tcase, trace bool) obs {
 	}
 	s := sched.New(bodies, trace)
 	// the explorer owns the choice: the scheduler asks verifrt.Choose through this closure
+	verifrt.TakeMisuse()
 	res := s.Run(chooseFn)
+	for _, m := range verifrt.TakeMisuse() {
+		fails = append(fails, "lock misuse: "+m)
+	}
 	return obs{res: res, fails: fails, results: results, tables: newKeysOnly(w)}
 }
 
